@@ -465,7 +465,9 @@ impl<'input> Tokenizer<'input> {
                     continue;
                 } else if c == 'r' {
                     self.bump();
-                    if let Some((idx, '#')) = self.lookahead {
+                    // A raw string, with or without hashes: `r"\"`, `r#"""#`. `regex_literal`
+                    // expects the index of the `r` (it counts the hashes from there).
+                    if let Some((_, '#')) | Some((_, '"')) = self.lookahead {
                         self.regex_literal(idx)?;
                     }
                     continue;
